@@ -1,6 +1,7 @@
 import Generated.SSA_Num
 import Lemmas.GenTie
 import Lemmas.GenTieCompose
+import Lemmas.GenTieSpec
 import Props.C01
 /-! # C01, second tie — the definitions regenerated from the Go source are the verified model
 
@@ -48,17 +49,35 @@ open U128 (W)
 /-! ## Uint128: add, subtract, multiply -/
 
 @[gen_eq] theorem Uint128_Add_eq : Gen.Uint128_Add = U128.add := by
-  funext u n; gen_tie [U128.add]
+  funext u n
+  first
+  | gen_tie [U128.add]
+  | (apply GenTieSpec.add_of_spec; gen_spec)
 @[gen_eq] theorem Uint128_Add64_eq : Gen.Uint128_Add64 = U128.addW := by
-  funext u n; gen_tie [U128.addW]
+  funext u n
+  first
+  | gen_tie [U128.addW]
+  | (apply GenTieSpec.addW_of_spec; gen_spec)
 @[gen_eq] theorem Uint128_Sub_eq : Gen.Uint128_Sub = U128.sub := by
-  funext u n; gen_tie [U128.sub]
+  funext u n
+  first
+  | gen_tie [U128.sub]
+  | (apply GenTieSpec.sub_of_spec; gen_spec)
 @[gen_eq] theorem Uint128_Sub64_eq : Gen.Uint128_Sub64 = U128.subW := by
-  funext u n; gen_tie [U128.subW]
+  funext u n
+  first
+  | gen_tie [U128.subW]
+  | (apply GenTieSpec.subW_of_spec; gen_spec)
 @[gen_eq] theorem Uint128_Inc_eq : Gen.Uint128_Inc = U128.inc := by
-  funext u; gen_tie [U128.inc]
+  funext u
+  first
+  | gen_tie [U128.inc]
+  | (apply GenTieSpec.inc_of_spec; gen_spec)
 @[gen_eq] theorem Uint128_Dec_eq : Gen.Uint128_Dec = U128.dec := by
-  funext u; gen_tie [U128.dec]
+  funext u
+  first
+  | gen_tie [U128.dec]
+  | (apply GenTieSpec.dec_of_spec; gen_spec)
 @[gen_eq] theorem Uint128_Mul_eq : Gen.Uint128_Mul = U128.mul := by
   funext u n; gen_tie [U128.mul]
 @[gen_eq] theorem Uint128_Mul64_eq : Gen.Uint128_Mul64 = U128.mulW := by
@@ -66,6 +85,7 @@ open U128 (W)
   first
   | gen_tie [U128.mulW] [U128.mask32]
   | (apply U128.toNat_inj; simp only [Gen.Uint128_Mul64, GenTieCompose.mul64_chain, C01.mul64_spec])
+  | (gen_tie [GenTieSpec.mulW_eq_mul64])
 
 /-! ## Uint128: ordering -/
 
@@ -137,7 +157,10 @@ open U128 (W)
 /-! ## Int128: constructors, predicates, conversions -/
 
 @[gen_eq] theorem Int128From64_eq : Gen.Int128From64 = I128.from64 := by
-  funext v; gen_tie [I128.from64, I128.ext64, I128.neg64] [I128.maxU64]
+  funext v
+  first
+  | gen_tie [I128.from64, I128.ext64, I128.neg64] [I128.maxU64]
+  | (apply I128.toInt_inj; rw [I128.from64_toInt]; gen_spec)
 @[gen_eq] theorem Int128FromUint64_eq : Gen.Int128FromUint64 = I128.fromUint64 := by
   funext v; gen_tie [I128.fromUint64]
 @[gen_eq] theorem Int128FromComponents_eq (high low : W) : Gen.Int128FromComponents high low = ⟨high, low⟩ := by
@@ -162,11 +185,17 @@ open U128 (W)
 /-! ## Int128: add, subtract, multiply, negate -/
 
 @[gen_eq] theorem Int128_Add_eq : Gen.Int128_Add = I128.add := by
-  funext i n; gen_tie [I128.add]
+  funext i n
+  first
+  | gen_tie [I128.add]
+  | (apply GenTieSpec.iadd_of_spec; gen_spec)
 @[gen_eq] theorem Int128_Add64_eq : Gen.Int128_Add64 = I128.addW := by
   funext i n; gen_tie [I128.addW, I128.neg64] [I128.maxU64]
 @[gen_eq] theorem Int128_Sub_eq : Gen.Int128_Sub = I128.sub := by
-  funext i n; gen_tie [I128.sub]
+  funext i n
+  first
+  | gen_tie [I128.sub]
+  | (apply GenTieSpec.isub_of_spec; gen_spec)
 @[gen_eq] theorem Int128_Sub64_eq : Gen.Int128_Sub64 = I128.subW := by
   funext i n; gen_tie [I128.subW, I128.neg64] [I128.maxU64]
 @[gen_eq] theorem Int128_Inc_eq : Gen.Int128_Inc = I128.inc := by
@@ -185,21 +214,27 @@ open U128 (W)
   first
   | gen_tie [I128.neg] [I128.minI128, U128.signBit]
   | (apply I128.toInt_inj; have := GenTieCompose.toInt_bounds i; tie_spec [Gen.Int128_Neg])
+  | (apply GenTieSpec.neg_of_spec; gen_spec)
 @[gen_eq] theorem Int128_Abs_eq : Gen.Int128_Abs = I128.abs := by
   funext i
   first
   | gen_tie [I128.abs] [U128.signBit]
   | (apply I128.toInt_inj; have := GenTieCompose.toInt_bounds i; tie_spec [Gen.Int128_Abs])
+  | (apply GenTieSpec.abs_of_spec <;> intro h <;> gen_spec)
 @[gen_eq] theorem Int128_AbsUint128_eq : Gen.Int128_AbsUint128 = I128.absUint128 := by
   funext i
   first
   | gen_tie [I128.absUint128, I128.toU] [I128.minI128, U128.signBit]
   | (apply U128.toNat_inj; refine Int.natCast_inj.mp ?_; have := GenTieCompose.toInt_bounds i; tie_spec [Gen.Int128_AbsUint128])
+  | (apply GenTieSpec.absUint128_of_spec <;> intro h <;> gen_spec)
 
 /-! ## Int128: ordering -/
 
 @[gen_eq] theorem Int128_LessThan_eq : Gen.Int128_LessThan = I128.lessThan := by
-  funext i n; gen_tie [I128.lessThan, I128.ltHL] [U128.signBit]
+  funext i n
+  first
+  | gen_tie [I128.lessThan, I128.ltHL] [U128.signBit]
+  | (rw [C01.ilt_spec]; gen_spec)
 @[gen_eq] theorem Int128_Cmp_eq (i n : I128) : (Gen.Int128_Cmp i n).toInt = I128.cmp i n := by
   first
   | gen_tie [I128.cmp, I128.cmpHL] [U128.signBit]
@@ -213,43 +248,54 @@ open U128 (W)
   first
   | gen_tie [I128.greaterThan, I128.gtHL] [U128.signBit]
   | (tie_spec [Gen.Int128_GreaterThan])
+  | (rw [C01.igt_spec]; gen_spec)
 @[gen_eq] theorem Int128_GreaterThan64_eq : Gen.Int128_GreaterThan64 = I128.greaterThanW := by
   funext i n
   first
   | gen_tie [I128.greaterThanW, I128.gtHL, I128.ext64, I128.neg64] [I128.maxU64, U128.signBit]
   | (tie_spec [Gen.Int128_GreaterThan64])
+  | (rw [C01.igt64_spec]; gen_spec)
 @[gen_eq] theorem Int128_GreaterThanOrEqual_eq : Gen.Int128_GreaterThanOrEqual = I128.greaterThanOrEqual := by
   funext i n
   first
   | gen_tie [I128.greaterThanOrEqual, I128.geHL] [U128.signBit]
   | (tie_spec [Gen.Int128_GreaterThanOrEqual])
+  | (rw [C01.ige_spec]; gen_spec)
 @[gen_eq] theorem Int128_GreaterThanOrEqual64_eq : Gen.Int128_GreaterThanOrEqual64 = I128.greaterThanOrEqualW := by
   funext i n
   first
   | gen_tie [I128.greaterThanOrEqualW, I128.geHL, I128.ext64, I128.neg64] [I128.maxU64, U128.signBit]
   | (tie_spec [Gen.Int128_GreaterThanOrEqual64])
+  | (rw [C01.ige64_spec]; gen_spec)
 @[gen_eq] theorem Int128_Equal_eq : Gen.Int128_Equal = I128.equal := by
-  funext i n; gen_tie [I128.equal]
+  funext i n
+  first
+  | gen_tie [I128.equal]
+  | (rw [C01.ieq_spec]; gen_spec)
 @[gen_eq] theorem Int128_Equal64_eq : Gen.Int128_Equal64 = I128.equalW := by
   funext i n
   first
   | gen_tie [I128.equalW, I128.ext64, I128.neg64] [I128.maxU64]
   | (tie_spec [Gen.Int128_Equal64])
+  | (rw [C01.ieq64_spec]; gen_spec)
 @[gen_eq] theorem Int128_LessThan64_eq : Gen.Int128_LessThan64 = I128.lessThanW := by
   funext i n
   first
   | gen_tie [I128.lessThanW, I128.ltHL, I128.ext64, I128.neg64] [I128.maxU64, U128.signBit]
   | (tie_spec [Gen.Int128_LessThan64])
+  | (rw [C01.ilt64_spec]; gen_spec)
 @[gen_eq] theorem Int128_LessThanOrEqual_eq : Gen.Int128_LessThanOrEqual = I128.lessThanOrEqual := by
   funext i n
   first
   | gen_tie [I128.lessThanOrEqual, I128.leHL] [U128.signBit]
   | (tie_spec [Gen.Int128_LessThanOrEqual])
+  | (rw [C01.ile_spec]; gen_spec)
 @[gen_eq] theorem Int128_LessThanOrEqual64_eq : Gen.Int128_LessThanOrEqual64 = I128.lessThanOrEqualW := by
   funext i n
   first
   | gen_tie [I128.lessThanOrEqualW, I128.leHL, I128.ext64, I128.neg64] [I128.maxU64, U128.signBit]
   | (tie_spec [Gen.Int128_LessThanOrEqual64])
+  | (rw [C01.ile64_spec]; gen_spec)
 
 /-! ## transported specifications
 
